@@ -176,3 +176,133 @@ Proof.
     + intros p Hp. rewrite pins_of_spins. eapply NoDup_app_disj; [exact Hnd|]. apply in_or_app. now left.
     + cbn [app]. apply NoDup_app_r in Hnd. now apply NoDup_app_l in Hnd.
 Qed.
+
+(* ---------------------------------------------------------------------------------------- *)
+(* contents: instances, then nets *)
+Lemma loop_app {S} (step : S -> str -> list sexp -> result S) ae a : forall s b,
+  loop step ae s (a ++ b) = match loop step ae s a with Ok s' => loop step ae s' b | Err e => Err e end.
+Proof.
+  induction a as [|x a IH]; intros s b; [reflexivity|].
+  destruct x as [t|t|l]; [reflexivity|reflexivity|].
+  destruct l as [|h args]; cbn [app loop].
+  - destruct ae; [apply IH|reflexivity].
+  - destruct h as [k|k|k]; try reflexivity. destruct (step s (lower k) args); [apply IH|reflexivity].
+Qed.
+
+(* what the reader context must hold for an instance: its reference resolves to a declared cell
+   with view "netlist" whose ports are [rp i] *)
+Definition inst_good (cx : ctx) (rp : nvinst -> list nvport) (i : nvinst) : Prop :=
+  exists l c cs C, in_ref i = Some (l, c) /\ elem_w (in_ident i) (in_name i) = true /\
+    forallb prop_w (in_props i) = true /\ ident_w l = true /\ ident_w c = true /\
+    resolve_lib cx (Some l) = Ok (l, cs) /\ find_cell c cs = Some C /\ ce_ident C = c /\
+    ce_view C = Some (K "netlist") /\ ce_ports C = rp i.
+
+Lemma einsts_idents rp l : map (fun ip : einst => in_ident (fst ip)) (einsts rp l) = map in_ident l.
+Proof. unfold einsts. rewrite map_map. reflexivity. Qed.
+Lemma einsts_names rp l : map (fun ip : einst => in_name (fst ip)) (einsts rp l) = map in_name l.
+Proof. unfold einsts. rewrite map_map. reflexivity. Qed.
+
+Lemma insts_loop cx rp lib cell (is : list nvinst) : forall acc xs cabs,
+  emap (inst_sexp [] lib cell) is = EmOk xs -> Forall (inst_good cx rp) is ->
+  uniq_ci (map in_ident (acc ++ is)) = true -> uniq_x (map in_name (acc ++ is)) = true ->
+  loop (contents_step cx) false (mkcst (einsts rp acc) cabs) xs = Ok (mkcst (einsts rp (acc ++ is)) cabs).
+Proof.
+  induction is as [|i is IH]; intros acc xs cabs Hx Hg Hui Hun.
+  - inversion Hx. now rewrite app_nil_r.
+  - cbn [emap] in Hx. destruct (inst_sexp [] lib cell i) as [x| |] eqn:Ei; try discriminate.
+    destruct (emap (inst_sexp [] lib cell) is) as [xs'| |] eqn:Eis; try discriminate. inversion Hx. subst xs.
+    inversion Hg as [|? ? Hgi Hgs]; subst.
+    destruct Hgi as (l & c & cs & C & Hr & Hel & Hps & Hl & Hc & Hres & Hfc & Hcid & Hv & Hp).
+    rewrite map_app in Hui, Hun. cbn [map] in Hui, Hun.
+    destruct (inst_roundtrip cx (einsts rp acc) lib cell i x l c cs C Ei Hr Hel Hps Hl Hc Hres Hfc Hcid Hv)
+      as (args & -> & Hpi).
+    { rewrite einsts_idents. exact (uniq_ci_mid _ _ _ Hui). }
+    { rewrite einsts_names. exact (uniq_x_mid _ _ _ Hun). }
+    unfold KW. cbn [loop]. unfold contents_step at 1.
+    replace (kweq (lower (K "instance")) "instance") with true by (vm_compute; reflexivity).
+    cbn [cs_insts cs_cabs]. rewrite Hpi, Hp.
+    replace (acc ++ i :: is) with ((acc ++ [i]) ++ is) by (now rewrite <- app_assoc).
+    specialize (IH (acc ++ [i]) xs' cabs eq_refl Hgs).
+    assert (E : einsts rp (acc ++ [i]) = einsts rp acc ++ [(i, rp i)]) by (unfold einsts; now rewrite map_app).
+    rewrite E in IH. apply IH; rewrite <- app_assoc; cbn [app]; now rewrite map_app.
+Qed.
+
+Lemma emit_from_pins {P} ident name (ws : list (list P)) : forall idx,
+  flat_map snd (emit_from ident name idx ws) = List.concat ws.
+Proof. induction ws as [|w ws IH]; intros idx; [reflexivity|]. cbn. now rewrite IH. Qed.
+
+Lemma emit_cable_pins {P} ident name (c : cab P) : flat_map snd (emit_cable ident name c) = List.concat (c_wires c).
+Proof.
+  unfold emit_cable. destruct (c_wires c) as [|w [|w' ws]] eqn:E.
+  - reflexivity.
+  - destruct (c_array c); cbn; now rewrite !app_nil_r.
+  - apply emit_from_pins.
+Qed.
+
+Lemma emit_nets_pins (cabs : list (entry pd)) : flat_map snd (emit_nets cabs) = pins_of cabs.
+Proof.
+  induction cabs as [|e cabs IH]; [reflexivity|].
+  change (emit_nets (e :: cabs)) with (emit_cable (e_ident e) (e_name e) (e_cab e) ++ emit_nets cabs).
+  change (pins_of (e :: cabs)) with (cab_pins e ++ pins_of cabs).
+  rewrite flat_map_app. f_equal; [apply emit_cable_pins|exact IH].
+Qed.
+
+(* ---------------------------------------------------------------------------------------- *)
+(* ONE CELL: (Cell name (celltype GENERIC) (view netlist (viewtype NETLIST) (interface ..) [(contents ..)]))
+   read by parse_cell in a reader state [rlibs] (libraries read), [rcells] (cells of this library
+   read so far) gives [norm_cell c] *)
+Lemma einsts_fst rp l : map fst (einsts rp l) = l.
+Proof. unfold einsts. rewrite map_map. cbn. apply map_id. Qed.
+
+Lemma sinv_nil : @sinv pd [].
+Proof. constructor; cbn; [constructor|constructor|intros e []]. Qed.
+
+Theorem cell_roundtrip rlibs libs lib rcells c x rp :
+  cell_sexp [] libs lib c = EmOk x ->
+  elem_w (ce_ident c) (ce_name c) = true ->
+  forallb port_w (ce_ports c) = true ->
+  uniq_ci (map po_ident (ce_ports c)) = true -> uniq_x (map po_name (ce_ports c)) = true ->
+  Forall (inst_good (mkctx rlibs lib rcells (ce_ident c) (K "netlist") (ce_ports c)) rp) (ce_insts c) ->
+  uniq_ci (map in_ident (ce_insts c)) = true -> uniq_x (map in_name (ce_insts c)) = true ->
+  wf_cell (ce_cabs c) -> Forall (net_good libs c rp) (emit_nets (ce_cabs c)) -> NoDup (pins_of (ce_cabs c)) ->
+  ident_taken (ce_ident c) (map ce_ident rcells) = false ->
+  name_taken (ce_name c) (map ce_name rcells) = false ->
+  exists args, x = SList (KW "Cell" :: args) /\ parse_cell rlibs lib rcells args = Ok (norm_cell c).
+Proof.
+  intros Hx Hel Hpw Hpu Hpn Hig Hiu Hin Hwf Hng Hnd Hti Htn.
+  unfold elem_w in Hel. apply andb_true_iff in Hel as [Hi Ht].
+  unfold cell_sexp in Hx. rewrite Hpu, Hiu in Hx. cbn [andb negb] in Hx.
+  destruct (name_sexp (ce_ident c) (ce_name c)) as [nx| |] eqn:En; try discriminate.
+  destruct (emap port_sexp (ce_ports c)) as [pxs| |] eqn:Eps; try discriminate.
+  destruct (emap (inst_sexp [] lib (ce_ident c)) (ce_insts c)) as [ixs| |] eqn:Eis; try discriminate.
+  destruct (emap (net_sexp libs c) (emit_nets (ce_cabs c))) as [nxs| |] eqn:Ens; try discriminate.
+  inversion Hx. subst x. clear Hx. eexists. split; [reflexivity|].
+  destruct (elemname_roundtrip _ _ _ Hi Ht En) as (n & Hn & Hn1 & Hn2).
+  unfold parse_cell. rewrite Hn.
+  replace (chk_celltype (SList [KW "celltype"; KW "GENERIC"])) with (@Ok unit tt) by (vm_compute; reflexivity).
+  unfold KW at 1. cbn [loop app]. unfold cell_step at 1.
+  replace (kweq (lower (K "view")) "status") with false by (vm_compute; reflexivity).
+  replace (kweq (lower (K "view")) "view") with true by (vm_compute; reflexivity).
+  cbn [snd fst]. unfold parse_view.
+  replace (parse_namedef (KW "netlist")) with (@Ok nmd (mknmd (K "netlist") None)) by (vm_compute; reflexivity).
+  replace (chk_viewtype (SList [KW "viewtype"; KW "NETLIST"])) with (@Ok unit tt) by (vm_compute; reflexivity).
+  rewrite (interface_roundtrip _ _ Eps Hpw Hpu Hpn). cbn [nm_ident]. rewrite Hn1.
+  set (cx := mkctx rlibs lib rcells (ce_ident c) (K "netlist") (ce_ports c)) in *.
+  assert (Hplace : place (map ce_name rcells) (map ce_ident rcells) n = Ok (ce_name c)).
+  { unfold place. now rewrite Hn1, Hn2, Hti, Htn. }
+  destruct (is_nil (ce_insts c) && is_nil (ce_cabs c)) eqn:Enil.
+  - apply andb_true_iff in Enil as [E1 E2].
+    destruct (ce_insts c) eqn:Ei; [|discriminate]. destruct (ce_cabs c) eqn:Ec; [|discriminate].
+    cbn [loop snd fst]. rewrite Hplace. cbn [snd fst cs_insts cs_cabs map].
+    unfold norm_cell. rewrite Ei, Ec. reflexivity.
+  - unfold KW at 1. cbn [loop]. unfold view_step at 1.
+    replace (kweq (lower (K "contents")) "status") with false by (vm_compute; reflexivity).
+    replace (kweq (lower (K "contents")) "contents") with true by (vm_compute; reflexivity).
+    cbn [snd fst]. rewrite loop_app.
+    change (mkcst [] []) with (mkcst (einsts rp []) []).
+    rewrite (insts_loop cx rp lib (ce_ident c) (ce_insts c) [] ixs [] Eis Hig Hiu Hin). cbn [app].
+    rewrite (nets_loop libs c cx rp (emit_nets (ce_cabs c)) [] nxs (map (@norm_entry pd) (ce_cabs c)) eq_refl Ens Hng sinv_nil).
+    + cbn [loop snd fst]. rewrite Hplace. cbn [snd fst cs_insts cs_cabs]. rewrite einsts_fst. reflexivity.
+    + apply cell_nets_roundtrip. exact Hwf.
+    + cbn [app]. change (spins (@nil (entry pd))) with (@nil pd). cbn [app]. now rewrite emit_nets_pins.
+Qed.
